@@ -37,8 +37,8 @@ FOCUS_FILES = [
 class C27(Scenario):
     pid = "C27"
     arms = {
-        "quick": [("fault-free", 5), ("interrupts", 4), ("stack", 2), ("aliasing", 2)],
-        "thorough": [("fault-free", 5), ("interrupts", 5), ("stack", 3), ("aliasing", 3), ("long", 2), ("untorn-off", 1)],
+        "quick": [("fault-free", 5), ("interrupts", 4), ("stack", 2), ("aliasing", 2), ("sweep", 2)],
+        "thorough": [("fault-free", 5), ("interrupts", 5), ("stack", 3), ("aliasing", 3), ("long", 2), ("untorn-off", 1), ("sweep", 3)],
     }
     runs = {"quick": 4000, "thorough": 90000}
     wall = {"quick": 75, "thorough": 1300}
@@ -61,6 +61,8 @@ class C27(Scenario):
             cfg["n_steps"] = rng.randint(15, 40)
         if arm == "aliasing":
             cfg["n_forms"] = rng.randint(2, 3)
+        if arm == "sweep":
+            return self.generate_sweep(rng, zpool)
         P = call_planner(zpool, {"kind": "pool", "seed": rng.getrandbits(40), "cfg": cfg})
         units = []
         step_of = {}
@@ -87,6 +89,47 @@ class C27(Scenario):
         lo = 1
         hi = P["next"] + 10
         return {"nodes": [{"salt": rng.choice(SALTS)}], "units": units, "range": [lo, hi], "observe_only": arm == "untorn-off"}
+
+    def generate_sweep(self, rng, zpool):
+        """Crash-point enumeration: the same small form is built K times from scratch and its
+        FIRST analysis (signature / hash / arguments / numbering / compute_form_data) is cut
+        short at the 1st, 2nd, ..., K-th line event inside one state-carrying module; the
+        final full snapshots cross-check the cached accessors of every copy against a fresh
+        form over the same integrals (clause M3) and its metadata against the user's dicts."""
+        from sim.scn_c12 import remap
+
+        P = call_planner(zpool, {"kind": "pool", "seed": rng.getrandbits(40), "cfg": {"families": {"flat": True}, "n_forms": 1, "n_steps": 1, "depth": 2, "abort_p": 0.0, "formsum_p": 0.0, "matrix_p": 0.0, "bfo_form_p": 0.0, "msq_p": 0.0}})
+        base_ops = [op for op in P["ops"][: P["setup_len"]] if op[0] in ("call", "meth", "attr", "lit", "unpack")]
+        forms = [f[0] for f in P["forms"]]
+        if not forms:
+            return {"nodes": [{"salt": 0}], "units": [], "range": [1, 2], "observe_only": False}
+        f = forms[0]
+        fname = rng.choice(FOCUS_FILES[:9])
+        kind = rng.choice(["interrupt", "interrupt", "memerr"])
+        first = rng.randint(1, 40)
+        K = rng.randint(25, 70)
+        off = P["next"] + 10
+        units = []
+        for i in range(K):
+            o = off * i
+            for op in base_ops:
+                units.append({"k": "setup", "n": 0, "op": remap(op, o) if o else op})
+            t = rng.randrange(6)
+            fo = f + o
+            if t == 0:
+                target = ["obs", None, "sig", fo]
+            elif t == 1:
+                target = ["obs", None, rng.choice(["hash", "args", "coeffs", "str"]), fo]
+            elif t == 2:
+                target = ["meth", off * K + 100 + i, ["$", fo], rng.choice(["coefficient_numbering", "terminal_numbering", "domain_numbering", "ufl_domains", "constants", "subdomain_data"]), []]
+            elif t == 3:
+                target = ["call", off * K + 100 + i, "sim.ops.form_data", [["$", fo]]]
+            elif t == 4:
+                target = ["call", off * K + 100 + i, rng.choice(["ufl.algorithms.expand_derivatives", "operator.neg", "ufl.algorithms.renumbering.renumber_indices"]), [["$", fo]]]
+            else:
+                target = ["cmp", None, fo, fo]
+            units.append({"k": "alg", "n": 0, "op": ["fault", kind, {"n": first + i, "defer": True, "files": [fname]}, target], "step": i + 1, "inputs": [fo]})
+        return {"nodes": [{"salt": rng.choice(SALTS)}], "units": units, "range": [1, off * K + 200 + K], "observe_only": False, "sweep": True}
 
     def expand(self, plan):
         """Objects are first observed *cold* (nothing that fills a lazy cache of the object
